@@ -34,7 +34,8 @@ META = dict(
 SEP = "".join("s%d\n" % i for i in range(1, 9))
 IDS = {"a": b"a-id", "b": b"b-id", "l": b"l-id", "d": b"d-id", "n": b"n-id"}
 FILES = ("a", "b", "l", "n")
-WITNESSES = ("WitnessOneHunkOfTwo", "WitnessRenameKeptEditShelved", "WitnessExecStays", "WitnessManyFiles")
+WITNESSES = ("WitnessOneHunkOfTwo", "WitnessRenameKeptEditShelved", "WitnessExecStays", "WitnessMovedFileHunk",
+             "WitnessManyFiles")
 
 
 def text(f, ra, rb):
@@ -431,27 +432,38 @@ def _judge(ctx, rows, chunk=5000):
 
 
 # ----------------------------------------------------------------------------- shelf manager state machine
-MGR_CFG = ("SPECIFICATION Spec\nCONSTANTS\n  NCh = %d\n  MaxSer = %d\nINVARIANT UniqueIds\nPROPERTY SurvivesUntilDeleted\n"
+MGR_CFG = ("SPECIFICATION %s\nCONSTANTS\n  NCh = %d\n  MaxSer = %d\n  Fill = %d\nINVARIANT UniqueIds\nINVARIANT NextIdAboveAll\n"
+           "PROPERTY SurvivesUntilDeleted\nPROPERTY NewIdIsFresh\n"
            "PROPERTY OnlyShelveCreates\n")
 _act = re.compile(r"^(\w+)\((.*)\)$")
 
 
-def mgr_proj(wt, nch):
+_msg = re.compile(r"^ser-(\d+)-ch-(\d+)$")
+
+
+def mgr_proj(wt, nch, cheap=False):
+    """what a manager shows: existing shelves [id, change held, serial] (serial from the shelf's message; the change
+    from the shelf's CONTENT, or - cheap, for the many-shelves behaviours - from the message too), the answer of
+    last_shelf() (0 = None) and the changes present in the tree"""
     m = wt.get_shelf_manager()
     sh = []
     for i in m.active_shelves():
-        msg = m.get_metadata(i).get(b"message") or ""
-        u = m.get_unshelver(i)
-        try:
-            with u.transform.get_preview_tree().lock_read():
-                adds = sorted(int(pth[1:]) for pth in ("n%d" % c for c in range(1, nch + 1))
-                              if u.transform.get_preview_tree().is_versioned(pth))
-        finally:
-            u.finalize()
-        sh.append([i, adds[0] if len(adds) == 1 else -1, int(msg[4:]) if msg.startswith("ser-") else -1])
+        mm = _msg.match(m.get_metadata(i).get(b"message") or "")
+        if cheap:
+            ch = int(mm.group(2)) if mm else -1
+        else:
+            u = m.get_unshelver(i)
+            try:
+                pt = u.transform.get_preview_tree()
+                with pt.lock_read():
+                    adds = [c for c in range(1, nch + 1) if pt.is_versioned("n%d" % c)]
+            finally:
+                u.finalize()
+            ch = adds[0] if len(adds) == 1 else -1
+        sh.append([i, ch, int(mm.group(1)) if mm else -1])
     with wt.lock_read():
         tree = [c for c in range(1, nch + 1) if wt.is_versioned("n%d" % c) and os.path.exists(wt.abspath("n%d" % c))]
-    return {"shelves": sorted(sh), "tree": tree}
+    return {"shelves": sorted(sh), "tree": tree, "last": m.last_shelf() or 0}
 
 
 def _replay_mgr(sub, items):
@@ -459,21 +471,36 @@ def _replay_mgr(sub, items):
     from breezy.workingtree import WorkingTree
     top = os.path.join(sub.workdir, "c15m")
     os.makedirs(top)
-    tmpls = {}
-    for nch, nodes, path, idx in items:
+    tmpls, filled = {}, {}
+    for nch, fill, nodes, path, idx in [(n, f, nd, pth, i) for n, f, nd, batch in items for pth, i in batch]:
         if nch not in tmpls:
             tmpls[nch] = os.path.join(top, "tmpl%d" % nch)
             build_base(tmpls[nch], extra=nch)
         p = os.path.join(top, "cur")
         shutil.rmtree(p, ignore_errors=True)
-        shutil.copytree(tmpls[nch], p, symlinks=True)
-        wt = WorkingTree.open(p)
         calls = []
-        for act, nid in path[1:]:
+        steps = path[1:]
+        prefix = tuple(a for a, _ in steps[:fill])
+        wsh = []
+        if fill and (nch, prefix) in filled:
+            # the common beginning of the many-shelves behaviours (Fill shelves, one after the other) was replayed and
+            # checked step by step once in this worker; continue from a copy of the tree it left
+            shutil.copytree(filled[(nch, prefix)], p, symlinks=True)
+            calls = [[a, ""] for a in prefix]
+            want = to_py(parse_state(nodes[steps[fill - 1][1]]))
+            wsh = sorted([s["id"], s["ch"], s["ser"]] for s in want["shelves"])
+            steps = steps[fill:]
+        else:
+            shutil.copytree(tmpls[nch], p, symlinks=True)
+        wt = WorkingTree.open(p)
+        for act, nid in steps:
+            prev_top = max([s[0] for s in wsh] or [0])
             want = to_py(parse_state(nodes[nid]))
             wsh = sorted([s["id"], s["ch"], s["ser"]] for s in want["shelves"])
             wtree = sorted(want["tree"])
+            wlast = max([s[0] for s in wsh] or [0])
             name, args = _act.match(act).groups()
+            name = name[1:] if name in ("MShelve", "MUnshelve", "MDelete") else name
             args = [a.strip() for a in args.split(",")]
             err = ""
             try:
@@ -481,7 +508,7 @@ def _replay_mgr(sub, items):
                     c = int(args[0])
                     if idx % 2:
                         sh = shelf_ui.Shelver(wt, wt.basis_tree(), diff_writer=_Sink(), auto=True, auto_apply=True,
-                                              file_list=["n%d" % c], message="ser-%d" % want["ser"])
+                                              file_list=["n%d" % c], message="ser-%d-ch-%d" % (want["ser"], c))
                         try:
                             sh.run()
                         finally:
@@ -491,20 +518,24 @@ def _replay_mgr(sub, items):
                             creator = shelf.ShelfCreator(wt, wt.basis_tree(), ["n%d" % c])
                             try:
                                 creator.shelve_all()
-                                wt.get_shelf_manager().shelve_changes(creator, "ser-%d" % want["ser"])
+                                wt.get_shelf_manager().shelve_changes(creator, "ser-%d-ch-%d" % (want["ser"], c))
                             finally:
                                 creator.finalize()
                 elif name == "Unshelve":
-                    shelf_ui.Unshelver(wt, wt.get_shelf_manager(), int(args[0]), apply_changes=True,
+                    sid = int(args[0])
+                    if sid == prev_top:          # the newest shelf is addressed the way `unshelve` without id does
+                        sid = wt.get_shelf_manager().last_shelf()
+                    shelf_ui.Unshelver(wt, wt.get_shelf_manager(), sid, apply_changes=True,
                                        delete_shelf=args[1] != "TRUE").run()
                 elif name == "Delete":
                     wt.get_shelf_manager().delete_shelf(int(args[0]))
             except Exception as e:
                 err = "%s: %s" % (type(e).__name__, str(e)[:100])
             calls.append([act, err])
-            live = mgr_proj(wt, nch)
-            fresh = mgr_proj(WorkingTree.open(p), nch)
-            rep = {"nch": nch, "calls": calls, "live": live, "fresh": fresh, "spec": {"shelves": wsh, "tree": wtree}}
+            live = mgr_proj(wt, nch, cheap=bool(fill))
+            fresh = mgr_proj(WorkingTree.open(p), nch, cheap=bool(fill))
+            rep = {"nch": nch, "calls": calls, "live": live, "fresh": fresh,
+                   "spec": {"shelves": wsh, "tree": wtree, "last": wlast}}
             stop = True
             if err:
                 sub.violation("mgr-raises:%s:%s" % (name, err.split(":")[0]), "%s raised %s" % (act, err), rep)
@@ -518,12 +549,19 @@ def _replay_mgr(sub, items):
                 sub.violation("mgr-duplicate-id:%s" % name, "after %s two shelves share an id: %s" % (act, fresh["shelves"]), rep)
             elif fresh["tree"] != wtree:
                 sub.violation("mgr-tree:%s" % name, "after %s the tree holds changes %s, specified %s" % (act, fresh["tree"], wtree), rep)
+            elif fresh["last"] != max([s[0] for s in fresh["shelves"]] or [0]):
+                sub.violation("mgr-last-shelf:%s" % name, "after %s last_shelf() answers %s, the shelves are %s" % (
+                    act, fresh["last"], fresh["shelves"]), rep)
+                stop = False                 # go on: the next shelve shows whether something gets overwritten
             elif fresh["shelves"] != wsh:
                 sub.drift("after %s the shelves are %s, the model says %s" % (act, fresh["shelves"], wsh), rep)
             else:
                 stop = False
             if stop:
                 break
+            if fill and len(calls) == fill and (nch, prefix) not in filled:
+                filled[(nch, prefix)] = os.path.join(top, "filled%d_%d" % (nch, len(filled)))
+                shutil.copytree(p, filled[(nch, prefix)], symlinks=True)
         sub.count(1, traces=1)
         sub.nontrivial(("mgr", nch, tuple(a for a, _ in calls)))
         if idx == 3:
@@ -538,11 +576,12 @@ def run(ctx):
     table_common.narrow_jvm()
     # ---- part 1: change sets x selections
     maxe = 2 if ctx.quick else 3
-    cases, _ = table_common.generate(ctx, "ShelfGen", {"MaxEdits": maxe}, witnesses=WITNESSES, workers=4, timeout=1500)
+    cases, _ = table_common.generate(ctx, "ShelfGen", {"MaxEdits": maxe, "MaxSame": maxe + 1}, witnesses=WITNESSES, workers=4,
+                                     timeout=1500)
     total = len(cases)
     extra = 0
     if not ctx.quick:
-        more, _ = table_common.generate(ctx, "ShelfGen", {"MaxEdits": 4}, workers=8, timeout=2400, label="ShelfGen 4 edits")
+        more, _ = table_common.generate(ctx, "ShelfGen", {"MaxEdits": 4, "MaxSame": 4}, workers=8, timeout=2400, label="ShelfGen 4 edits")
         more = [k for k in more if len(k["c"]["D"]) == 4]
         more.sort(key=lambda k: (atoms_of(k["c"]["D"]), atoms_of(k["c"]["S"])))
         extra = min(len(more), 2500)
@@ -573,28 +612,37 @@ def run(ctx):
                 what, atoms_of(row["impl"]["offered"])), rep)
     # ---- part 2: shelf manager ids / survival
     jobs = []
-    for nch, maxser, take in ((2, 3, 60),) if ctx.quick else ((2, 3, None), (3, 3, None)):
-        for w in ("WitnessIdReused", "WitnessThreeShelves"):
-            tlc.check(ctx, "ShelfMgr", cfg_text="SPECIFICATION Spec\nCONSTANTS\n  NCh = %d\n  MaxSer = %d\nINVARIANT %s\n" % (
-                nch, maxser, w), expect_violation=w, label="witness " + w, workers=2)
-        nodes, edges, inits, res = tlc.graph(ctx, "ShelfMgr", cfg_text=MGR_CFG % (nch, maxser), workers=4,
-                                             label="ShelfMgr MC + graph %d/%d" % (nch, maxser))
-        paths = list(tlc.transition_cover(nodes, edges, inits, rng=ctx.rng, max_len=14))
+    # (spec, NCh, MaxSer, Fill, paths to take): all call sequences over few shelves, and the many-shelves behaviours
+    # (10 shelves first, so that ids get a second digit, then everything at the ends of the shelf list)
+    plans = ((("Spec", 2, 3, 0, 60), ("SpecMany", 11, 11, 10, None)) if ctx.quick else
+             (("Spec", 2, 3, 0, None), ("Spec", 3, 3, 0, None), ("SpecMany", 12, 12, 10, None)))
+    for spec, nch, maxser, fill, take in plans:
+        for w in ("WitnessElevenShelves",) if fill else ("WitnessIdReused", "WitnessThreeShelves"):
+            tlc.check(ctx, "ShelfMgr", cfg_text="SPECIFICATION %s\nCONSTANTS\n  NCh = %d\n  MaxSer = %d\n  Fill = %d\nINVARIANT %s\n" % (
+                spec, nch, maxser, fill, w), expect_violation=w, label="witness " + w, workers=2)
+        nodes, edges, inits, res = tlc.graph(ctx, "ShelfMgr", cfg_text=MGR_CFG % (spec, nch, maxser, fill), workers=4,
+                                             label="ShelfMgr %s MC + graph %d/%d" % (spec, nch, maxser))
+        paths = list(tlc.transition_cover(nodes, edges, inits, rng=ctx.rng, max_len=14 if not fill else 60))
         npaths = len(paths)
         if take is not None and len(paths) > take:
             paths = ctx.rng.sample(paths, take)
-        ctx.cov.setdefault("graphs", []).append({"nch": nch, "maxser": maxser, "nodes": len(nodes), "edges": len(edges),
-                                                 "paths": npaths, "replayed": len(paths)})
-        for i, pth in enumerate(paths):
-            jobs.append((nch, {nid: nodes[nid] for _, nid in pth}, pth, i))
+        ctx.cov.setdefault("graphs", []).append({"spec": spec, "nch": nch, "maxser": maxser, "fill": fill, "nodes": len(nodes),
+                                                 "edges": len(edges), "paths": npaths, "replayed": len(paths)})
+        batch = 4 if fill else 1          # many-shelves paths share their first `fill` steps: replayed once per batch
+        for off in range(0, len(paths), batch):
+            part = paths[off:off + batch]
+            jobs.append((nch, fill, {nid: nodes[nid] for pth in part for _, nid in pth},
+                         [(pth, off + j) for j, pth in enumerate(part)]))
     core.fork_map(ctx, _replay_mgr, jobs)
     ctx.cov["exhaustive"] = True
     ctx.cov["cases_enumerated"] = total
-    ctx.rule("cases = every valid set of <= %d edits over {a, b: modA modB ren del miss unver kind exec; l: tgt ren del "
-             "kind; n: add addx} x every subset of the units iter_shelvable offers, enumerated by TLC (%d cases%s), each "
+    ctx.rule("cases = every valid set of <= %d edits (one more when all edits concern the same file) over {a, b: modA modB "
+             "ren del miss unver kind exec; l: tgt ren del kind; n: add addx} x every subset of the units iter_shelvable offers, enumerated by TLC (%d cases%s), each "
              "replayed through shelf_ui (scripted hunk selection) and through ShelfCreator directly; non-trivial = a "
              "proper non-empty sub-selection. Shelf manager: %s of TLC's state graph of ShelfMgr.tla (Shelve / "
-             "Unshelve(apply|keep) / Delete), every state observed through the live and a re-opened manager" % (
+             "Unshelve(apply|keep) / Delete) over 2-3 changes, plus a transition cover of the many-shelves behaviours (10 "
+             "shelves first, then shelve / unshelve-newest-without-id / delete at both ends), every state (shelves with "
+             "content and serial, last_shelf, tree) observed through the live and a re-opened manager" % (
                  maxe, total, " + a seeded sample of %d 4-edit cases" % extra if extra else "",
                  "a seeded sample of the transition-cover paths" if ctx.quick else "a transition cover"))
     ctx.assume("unshelve is applied to the unchanged result of the shelve; one representative per change kind")
